@@ -1,4 +1,6 @@
 // C03 driver: runs the REAL eigen solvers of /repo (stensor<N,double>) on tensors read from stdin.
+// input lines :  P <id> x0 x1 x2                 -> P <id> y0 y1 y2          (find_perpendicular_vector)
+//                V <id> s0 .. s5 vp              -> V <id> ok|false v0 v1 v2 (computeEigenVector(src, vp))
 // input lines :  <id> <N> <s0> ... <s(k-1)>      (Mandel/TFEL storage, k = 4 (N=2) or 6 (N=3); hex or decimal floats)
 // output lines:  R <id> <N> <solver> <status> vp0 vp1 vp2 m00 m01 m02 m10 ... m22 | ev0 ev1 ev2
 //                (m(i,j) row major: column j is the j-th eigenvector; ev = computeEigenValues<es>() values-only API)
@@ -9,9 +11,18 @@
 #include <iostream>
 #include <sstream>
 #include <string>
+#include <cmath>
+#include <algorithm>
+#include <type_traits>
+#include <limits>
+// the private helpers find_perpendicular_vector / computeEigenVector of StensorComputeEigenVectors<3> are run directly
+// (lines P and V below); standard headers are included above, so only the TFEL classes are opened
+#define private public
 #include "TFEL/Math/stensor.hxx"
 #include "TFEL/Math/tmatrix.hxx"
 #include "TFEL/Math/tvector.hxx"
+#include "TFEL/Math/Stensor/Internals/StensorComputeEigenVectors.hxx"
+#undef private
 
 using tfel::math::stensor;
 using tfel::math::stensor_common;
@@ -67,6 +78,33 @@ int main() {
     std::istringstream is(line);
     std::string id;
     int n = 0;
+    if (line[0] == 'P' || line[0] == 'V') {
+      namespace ti = tfel::math::internals;
+      std::string kind, tok;
+      is >> kind >> id;
+      double x[7] = {0, 0, 0, 0, 0, 0, 0};
+      const int k = (kind == "P") ? 3 : 7;
+      for (int i = 0; i < k; ++i) {
+        is >> tok;
+        x[i] = std::strtod(tok.c_str(), nullptr);
+      }
+      double y0 = 0, y1 = 0, y2 = 0;
+      if (kind == "P") {
+        ti::StensorComputeEigenVectors<3u>::find_perpendicular_vector(y0, y1, y2, x[0], x[1], x[2]);
+        std::printf("P %s %a %a %a\n", id.c_str(), y0, y1, y2);
+      } else {
+        bool ok = false;
+        std::string status = "ok";
+        try {
+          ok = ti::StensorComputeEigenVectors<3u>::computeEigenVector(x, x[6], y0, y1, y2);
+          if (!ok) status = "false";
+        } catch (std::exception& e) {
+          status = "throw";
+        }
+        std::printf("V %s %s %a %a %a\n", id.c_str(), status.c_str(), y0, y1, y2);
+      }
+      continue;
+    }
     is >> id >> n;
     double v[6] = {0, 0, 0, 0, 0, 0};
     const int k = (n == 2) ? 4 : 6;
